@@ -129,6 +129,26 @@ def main():
                 if not (abs(got - want) <= 1e-7 * max(1.0, abs(want))):
                     return dict(reproduced=True, call='parse_expression(%r) at x=%r p=%r t=%r volume=%r' % (s, x.tolist(), p.tolist(), t, vol),
                                 observed=float(got), expected=float(want))
+    # RULE expressions: an assignment rule whose right-hand side mentions t and volume, writing a species or a PARAMETER, through the rule's
+    # own entry points (with and without a volume in play): the target gets the value of the written formula
+    from bioscrape.types import GeneralAssignmentRule
+    s2i_r, p2i_r = {'X': 0, 'Y': 1}, {'k': 0, 'p': 1}
+    for target in ('Y', 'p'):
+        rule = GeneralAssignmentRule()
+        rule.initialize({'equation': '%s = 3*volume + t^2 + X*k' % target}, s2i_r, p2i_r, rule_frequency='repeat')
+        for rep in range(6):
+            X, k, V, t = rng.uniform(0, 9), rng.uniform(0.1, 2), rng.uniform(0.3, 4), rng.uniform(0, 10)
+            for vol in (V, None):
+                st, pa = np.array([X, 0.0]), np.array([k, 0.0])
+                if vol is None:
+                    rule.py_execute_rule(st, pa, t, 0.01, True)
+                else:
+                    rule.py_execute_volume_rule(st, pa, vol, t, 0.01, True)
+                got = st[1] if target == 'Y' else pa[1]
+                want = 3.0 * (1.0 if vol is None else vol) + t ** 2 + X * k
+                n += 1
+                if not abs(got - want) <= 1e-9 * max(1.0, abs(want)):
+                    return dict(reproduced=True, call="assignment rule '%s = 3*volume + t^2 + X*k' at X=%r k=%r t=%r volume=%r" % (target, X, k, t, vol), observed=float(got), expected=want)
     for bad in ('X + nosuchname', 'k*Z9', 'Y_1^q', 'sin(X)', 'X + __kq'):
         try:
             parse_expression(bad, S2I, P2I)
